@@ -3,6 +3,7 @@ package props
 import (
 	"fmt"
 	"sync"
+	"sync/atomic"
 	"time"
 
 	"github.com/anishathalye/porcupine"
@@ -377,6 +378,46 @@ func runC14Conc(c *Ctx) {
 		var ops []porcupine.Operation
 		start := make(chan struct{})
 		var wg sync.WaitGroup
+		// a second tracker of the same process (another client's) is busy at the same time: trackers share nothing,
+		// so what happens there can neither show up in this one's answers nor race with it
+		st2 := state.NewTracker("neighbour")
+		nbStop := make(chan struct{})
+		var nbWG sync.WaitGroup
+		var nbBad atomic.Value
+		for g := 0; g < 2; g++ {
+			nbWG.Add(1)
+			go func(g int) {
+				defer nbWG.Done()
+				rr := rig.Rand(c.Seed, "C14nb", procs, salt, idx, g)
+				<-start
+				for k := 0; ; k++ {
+					select {
+					case <-nbStop:
+						return
+					default:
+					}
+					n := fmt.Sprintf("nb%d_%d", g, rr.Intn(6))
+					switch rr.Intn(5) {
+					case 0:
+						st2.NewNick(n)
+						st2.NickInfo(n, "id"+n, "host."+n, "Real "+n)
+					case 1:
+						if d := st2.DelNick(n); d != nil && d.Nick != n {
+							nbBad.Store(fmt.Sprintf("DelNick(%q) on the neighbouring tracker returned the snapshot of %q", n, d.Nick))
+						}
+					case 2:
+						st2.NewChannel("#nb")
+						st2.Associate("#nb", n)
+					case 3:
+						if x := st2.GetNick(n); x != nil && (x.Nick != n || (x.Ident != "" && x.Ident != "id"+n)) {
+							nbBad.Store(fmt.Sprintf("GetNick(%q) on the neighbouring tracker returned %q / ident %q", n, x.Nick, x.Ident))
+						}
+					default:
+						_ = st2.String()
+					}
+				}
+			}(g)
+		}
 		for g := 0; g < ng; g++ {
 			wg.Add(1)
 			go func(g int) {
@@ -410,6 +451,11 @@ func runC14Conc(c *Ctx) {
 		}
 		close(start)
 		wg.Wait()
+		close(nbStop)
+		nbWG.Wait()
+		if v, _ := nbBad.Load().(string); v != "" {
+			c.R.Violate(rig.Violation{Sig: "c14|neighbouring-tracker-disturbed", Detail: v + " (two trackers of one process used at the same time)", Case: Case("conc", idx)})
+		}
 		c.R.Eval(1)
 		c.R.Count("concurrent_calls", int64(len(ops)))
 		// overlap statistics
